@@ -176,6 +176,10 @@ Definition enter_terminate (cfg : ucfg) (s : ustate) (r : treason) (method : usi
     (with_ph (with_ck s c) (PTerminating r), [OSignal method]).
 
 (* leaving terminate_child (Exited or Killed) back to the running loop *)
+(* the child's exit is observed by the running loop: detect_fd_leaks returns at once when both
+   pipes are already closed *)
+Definition after_exit (s : ustate) : phase := if fds_done s then PDone else PExiting.
+
 Definition leave_terminate (s : ustate) (r : treason) : ustate :=
   let s1 := match r with TTimeout => with_timed_out s true | TSignal => s end in
   with_ph s1 PRunning.
@@ -212,7 +216,7 @@ Definition ucore (tbl : ptable) (cfg : ucfg) (s : ustate) (e : aevent)
           else
             Ok (with_ck s1 (set_isl (ck s1) (slc_reset (period cfg) (k_isl (ck s1)))), ev)
       | AChildExit ok =>
-          Ok (with_ph (with_reaped s true ok) PExiting, [])
+          Ok (with_ph (with_reaped s true ok) (after_exit s), [])
       | AFdsDone => Ok (with_fds_done s true, [])
       | AReq RStop =>
           obind (exec_arm (reaped s) (ck s) (t_run_stop tbl)) (fun r => Ok (with_ck s (fst r), snd r))
@@ -240,7 +244,7 @@ Definition ucore (tbl : ptable) (cfg : ucfg) (s : ustate) (e : aevent)
   | PSyncWait =>
       (* `break child.wait().await`: nothing but the child's exit is processed *)
       match e with
-      | AChildExit ok => Ok (with_ph (with_reaped s true ok) PExiting, [])
+      | AChildExit ok => Ok (with_ph (with_reaped s true ok) (after_exit s), [])
       | _ => Ok (s, [])
       end
   | PExiting =>
